@@ -368,6 +368,84 @@ def run(ctx):
                "folder builds %s, VM %s builds %s" % (sorted(a), instr, sorted(b)), f.loc)
     ctx.count("interpreter arms summarised", len(vm_regs))
 
+    # ---- K7: literal keyword arguments.  The code generator collects all-literal kwargs into one constant object
+    # instead of emitting code for them; whichever way a call is compiled, every keyword argument must contribute:
+    # on each path through its arm of the emitting loop its value is either compiled or put into the constant map.
+    cca = prog.fn("minijinja::compiler::codegen::CodeGenerator::compile_call_args")
+    CALLARG = "minijinja::compiler::ast::CallArg"
+    n7 = 0
+    for sb, cd in arms.enum_switches(prog, cca, CALLARG):
+        regs = arms.arm_regions(prog, cca, sb, CALLARG)
+        emitting = any(c.name == COMPILE_EXPR for c in arms.calls_in(cca, regs.get("KwargSplat", set())))
+        if not emitting:
+            continue
+        n7 += 1
+        reg = regs.get("Kwarg", set())
+        events = {c.bb for c in arms.calls_in(cca, reg) if c.name == COMPILE_EXPR or c.name.split("::")[-1] == "insert"}
+        entry = [x for v, x in arms.variant_targets(prog, cca, sb, CALLARG).items() if v == "Kwarg"]
+        exits = {t for b in reg for t in cca.succ[b] if t not in reg}
+        ok = bool(entry) and all(cfg.paths_must_pass(cca, e, events, exits) for e in entry)
+        ctx.ob("C04.K7.every-kwarg-contributes", cca.path, ok,
+               "a path through the keyword-argument arm of the emitting loop neither compiles the value nor stores "
+               "its constant: the argument silently disappears from the call for some literal forms", cca.where(sb))
+    ctx.floor("C04.K7 emitting loops over call arguments", n7, 1)
+
+    # ---- K6: unary minus and comparison chains
+    ac = prog.fn(AS_CONST)
+    UNOP = "minijinja::compiler::ast::UnaryOpKind"
+    usw = arms.enum_switches(prog, ac, UNOP)
+    ctx.need(usw, "C04.K6: as_const has no switch on UnaryOpKind")
+    uregs = arms.arm_regions(prog, ac, usw[0][0], UNOP)
+
+    def region_sem(f, reg):
+        names = {s for s, _ in sem_calls(f, reg)}
+        for bb, i, st in f.all_stmts():
+            if bb in reg and st["k"] == "assign" and st["rv"].get("k") == "agg" and st["rv"].get("closure"):
+                from ..facts import norm_path
+                g = prog.fns.get(norm_path(st["rv"]["closure"]))
+                if g is not None:
+                    names |= {s for s, _ in sem_calls(g, g.reachable)}
+        return names
+    fneg = region_sem(ac, uregs.get("Neg", set()))
+    vneg = {s for s, _ in vm_tab.get("Neg", ([], False))[0]}
+    ceneg = {sem_name(c) for c in ce.calls()} & {"neg"}
+    ctx.ob("C04.K6.unary-minus-agrees", "UnaryOpKind::Neg", fneg == {"neg"} and vneg == {"neg"} and ceneg == {"neg"},
+           "folder arm calls %s, compile_expr's literal fast path calls %s, the interpreter's Neg arm calls %s: all "
+           "three must be ops::neg alone" % (sorted(fneg), sorted(ceneg), sorted(vneg)), ac.loc)
+    # comparison chain: a op1 b op2 c  ==  (a op1 b) and (b op2 c), false as soon as one link is false
+    chain = ac.calls_to(EVAL_COMPARE)
+    ctx.floor("C04.K6 eval_compare call in as_const", len(chain), 1)
+    for c in chain:
+        def srcs(op):
+            return {(o.call.name.split("::")[-1], o.call.bb) for o in flow.origins(ac, op) if o.kind == "call"}
+        l, r = srcs(c.args[1]), srcs(c.args[2])
+        ctx.ob("C04.K6.chain-compares-neighbours", AS_CONST, bool(r) and r < l,
+               "the left operand of each link must be the head expression or the previous link's right operand "
+               "(`left = right`): left comes from %s, right from %s" % (sorted(l), sorted(r)), ac.where(c.bb))
+        # the link's result decides through is_true; the deciding-false side returns a constant false
+        ok = False
+        detail = "no is_true test on the link result"
+        for t in ac.calls_to("minijinja::value::Value::is_true"):
+            if not any(o.kind == "call" and o.call is c for o in flow.origins(
+                    ac, t.args[0], through_calls=lambda k: 0 if ("branch" in k.name or "deref" in k.name) else None)):
+                continue
+            for sb in ac.reachable:
+                if ac.term(sb)["k"] != "switch":
+                    continue
+                cd = flow.cond_of(ac, sb)
+                if cd.kind == "call" and cd.call is t:
+                    fs = cfg.bool_edges(ac, sb, cd.neg)      # edges taken when is_true() is false
+                    fblocks = set()
+                    for e in fs:
+                        fblocks |= cfg.reach_from(ac, e[1])
+                    consts = []
+                    for k in ac.calls():
+                        if k.bb in fblocks and "From<bool> for minijinja::value::Value" in k.name:
+                            consts += [o.const.get("int", o.const.get("bool")) for o in flow.origins(ac, k.args[0]) if o.kind == "const"]
+                    ok = c.bb not in fblocks and bool(consts) and all(str(x).lower() in ("0", "false") for x in consts)
+                    detail = "after a false link: next link reachable=%s, value returned is the constant %s" % (c.bb in fblocks, consts)
+        ctx.ob("C04.K6.chain-stops-at-first-false-link", AS_CONST, ok, detail, ac.where(c.bb))
+
 
 def _shape(s):
     if "Tuple" in s:
